@@ -1428,14 +1428,7 @@ func vfC03RandomOp(rnd *rand.Rand, lg *vfC03Ledger, n *int) vfh.Op {
 		case r < 96 && len(all) > 0:
 			return vfh.Op{"name": "done", "h": pick(all)}
 		case r >= 96:
-			// scope GC, where it cannot forget a bare View reservation (known finding, see gcmem)
-			safe := true
-			for _, s := range []string{"peer:p1", "peer:p2", "proto:a"} {
-				safe = safe && lg.direct[s] == 0
-			}
-			if safe {
-				return vfh.Op{"name": "gc"}
-			}
+			return vfh.Op{"name": "gc"} // at any moment, also while View scopes hold reservations
 		}
 	}
 }
